@@ -18,10 +18,12 @@ def _expected_header(header):
     return e
 
 
-def _roundtrip(header, claims, expected, key, registry):
+def _roundtrip(header, claims, expected, key, registry, must_encode=False):
     before = snapshot(header)
     enc = call(jwt.encode, header, claims, key, None, registry)
     check(unchanged(header, before), "encoding does not alter the caller's header")
+    if must_encode:
+        check(enc.returned, "JSON-serializable claims (datetime exp/nbf/iat included) are encoded")
     if not enc.returned:
         return          # claims that are not JSON-serializable (or not UTF-8 encodable): nothing was encoded
     dec = call(jwt.decode, enc.value, key, None, registry)
@@ -35,7 +37,7 @@ def h_jws_roundtrip_any_claims():
     header = sym_choice("header", HEADERS)
     claims = sym_dict("claims")
     key = OctKey.import_key(sym_bytes("k"))
-    _roundtrip(dict(header), claims, claims, key, None)
+    _roundtrip(dict(header), claims, dict(claims), key, None)
 
 
 def h_jwe_roundtrip_any_claims():
@@ -44,7 +46,7 @@ def h_jwe_roundtrip_any_claims():
     k = sym_bytes("k")
     assume(len(k) == 16)
     key = OctKey.import_key(k)
-    _roundtrip(dict(header), claims, claims, key, JWERegistry())
+    _roundtrip(dict(header), claims, dict(claims), key, JWERegistry())
 
 
 def _date(name):
@@ -65,8 +67,10 @@ def _date(name):
 
 def h_datetime_claims_become_numeric_dates():
     transport = sym_choice("transport", ["jws", "jwe"])
-    claims = {"sub": sym_str("sub")}
-    expected = {"sub": claims["sub"]}
+    sub = sym_str("sub")
+    assume(ascii_only(sub))
+    claims = {"sub": sub, "n": sym_int("n")}
+    expected = {"sub": sub, "n": claims["n"]}
     which = sym_choice("which", [["exp"], ["nbf"], ["iat"], ["exp", "nbf", "iat"]])
     for name in which:
         present, given, numeric = _date(name if len(which) == 1 else "d")
@@ -75,10 +79,10 @@ def h_datetime_claims_become_numeric_dates():
             expected[name] = numeric
     k = sym_bytes("k")
     if transport == "jws":
-        _roundtrip({"alg": "HS256"}, claims, expected, OctKey.import_key(k), None)
+        _roundtrip({"alg": "HS256"}, claims, expected, OctKey.import_key(k), None, True)
     else:
         assume(len(k) == 16)
-        _roundtrip({"alg": "dir", "enc": "A128GCM"}, claims, expected, OctKey.import_key(k), JWERegistry())
+        _roundtrip({"alg": "dir", "enc": "A128GCM"}, claims, expected, OctKey.import_key(k), JWERegistry(), True)
 
 
 def h_key_set_kid_in_header():
